@@ -19,6 +19,7 @@ import (
 	"github.com/nspcc-dev/neo-go/pkg/util"
 	"github.com/nspcc-dev/neo-go/pkg/vm/stackitem"
 	"github.com/nspcc-dev/neo-go/pkg/wallet"
+	"github.com/nspcc-dev/neofs-contract/contracts/container/containerconst"
 	"github.com/stretchr/testify/require"
 )
 
@@ -92,10 +93,11 @@ func (v gv) eq(w gv) bool { return v.key() == w.key() }
 // (Pool) and composite values (named [val] constants), so that a map that is
 // read forty times is written once.
 type nmFile struct {
-	pool  *Pool
-	vals  map[string]string
-	vdefs []string
-	cases []string
+	pool     *Pool
+	vals     map[string]string
+	vdefs    []string
+	cases    []string
+	caseType string // Coq type of a case (default ncase)
 }
 
 func newNmFile() *nmFile { return &nmFile{pool: NewPool("b"), vals: map[string]string{}} }
@@ -137,7 +139,11 @@ func (f *nmFile) write(path, header, footer string, from, to int) error {
 	for _, d := range f.vdefs {
 		sb.WriteString(d)
 	}
-	sb.WriteString("Definition cases : list ncase := [\n")
+	ct := f.caseType
+	if ct == "" {
+		ct = "ncase"
+	}
+	sb.WriteString("Definition cases : list " + ct + " := [\n")
 	sb.WriteString(strings.Join(f.cases[from:to], ";\n"))
 	sb.WriteString("\n].\n")
 	sb.WriteString(footer)
@@ -1912,9 +1918,566 @@ func runNetmapFamily(t *testing.T, prop string) {
 	}
 	fs.flush(true)
 	st.Extra["case_files"] = fs.k
+	if prop == "C06" {
+		runEpochSystem(t, st)
+	}
 	st.Write()
 }
 
 func TestC06(t *testing.T) { runNetmapFamily(t, "C06") }
 func TestC07(t *testing.T) { runNetmapFamily(t, "C07") }
 func TestC08(t *testing.T) { runNetmapFamily(t, "C08") }
+
+// ---------------------------------------------------------------------------
+// C06, composed system: netmap + the real Balance and Container subscribers
+// (deployed as the repository does: both subscribe during their deployment)
+// + one probe. Histories mix balance operations (mint / lock / burn /
+// transfer), container size estimations (putContainerSize by network map
+// nodes), candidate changes and ticks delivered through netmap.newEpoch; the
+// observables are the Netmap reads, balanceOf over a pool, totalSupply and
+// container.iterateAllContainerSizes over a window of epochs. The cases are
+// evaluated against Model/EpochSystem.v (cases_C06_sys.v).
+
+type sysOp struct {
+	Kind    string `json:"kind"` // newEpoch addPeerIR subscribe mint lock burn transfer balTick cntTick putSize probeSetFault probeClearFault
+	Epoch   int64  `json:"epoch,omitempty"`
+	Node    int    `json:"node,omitempty"`
+	Info    []byte `json:"info,omitempty"`
+	Hash    []byte `json:"hash,omitempty"`
+	From    []byte `json:"from,omitempty"`
+	To      []byte `json:"to,omitempty"`
+	Amount  int64  `json:"amount,omitempty"`
+	Until   int64  `json:"until,omitempty"`
+	Details []byte `json:"details,omitempty"`
+	Cid     int    `json:"cid,omitempty"`
+	Size    int64  `json:"size,omitempty"`
+	Signers []int  `json:"signers"` // -1 committee (Alphabet), 0..2 nodes, 10+i users
+}
+
+func (o sysOp) String() string {
+	switch o.Kind {
+	case "newEpoch":
+		return fmt.Sprintf("netmap.newEpoch(%d)%v", o.Epoch, o.Signers)
+	case "addPeerIR":
+		return fmt.Sprintf("netmap.addPeerIR(node %d)%v", o.Node, o.Signers)
+	case "subscribe":
+		return fmt.Sprintf("netmap.subscribeForNewEpoch(%s)%v", Hex(o.Hash), o.Signers)
+	case "mint":
+		return fmt.Sprintf("balance.mint(%s,%d)%v", Hex(o.To), o.Amount, o.Signers)
+	case "lock":
+		return fmt.Sprintf("balance.lock(%s->%s,%d,until %d)%v", Hex(o.From), Hex(o.To), o.Amount, o.Until, o.Signers)
+	case "burn":
+		return fmt.Sprintf("balance.burn(%s,%d)%v", Hex(o.From), o.Amount, o.Signers)
+	case "transfer":
+		return fmt.Sprintf("balance.transfer(%s->%s,%d)%v", Hex(o.From), Hex(o.To), o.Amount, o.Signers)
+	case "balTick":
+		return fmt.Sprintf("balance.newEpoch(%d)%v", o.Epoch, o.Signers)
+	case "cntTick":
+		return fmt.Sprintf("container.newEpoch(%d)%v", o.Epoch, o.Signers)
+	case "putSize":
+		return fmt.Sprintf("container.putContainerSize(%d,cid#%d,%d,node %d)%v", o.Epoch, o.Cid, o.Size, o.Node, o.Signers)
+	case "probeSetFault":
+		return fmt.Sprintf("probe.setFault(%d)", o.Epoch)
+	}
+	return o.Kind
+}
+
+type sysEnv struct {
+	x      *c20EstEnv
+	probe  util.Uint160
+	users  []neotest.SingleSigner
+	locks  [][]byte
+	pool   [][]byte // balance accounts observed
+	rej    *int64   // epoch the probe rejects
+	epoch  int64
+	d1, d2 int64
+}
+
+func newSysEnv(t *testing.T) *sysEnv {
+	x := c20NewEstEnv(&c20Run{t: t}, 2)
+	s := &sysEnv{x: x, d1: int64(containerconst.CleanupDelta), d2: int64(containerconst.TotalCleanupDelta)}
+	pr := x.CompileHelper("nmprobe")
+	p := nmCloneContract(pr, x.E.CommitteeHash, "verif netmap probe sys")
+	x.E.DeployContract(t, p, nil)
+	s.probe = p.Hash
+	var fund []neotest.Signer
+	for i := 0; i < 2; i++ {
+		u := c20Signer("sysuser", i)
+		s.users = append(s.users, u)
+		fund = append(fund, u)
+	}
+	c20Fund(x.Env, fund...)
+	for i := 0; i < 2; i++ {
+		a := make([]byte, 20)
+		a[0], a[19] = byte(0x40+i), byte(i+1)
+		s.locks = append(s.locks, a)
+	}
+	for _, u := range s.users {
+		s.pool = append(s.pool, u.ScriptHash().BytesBE())
+	}
+	s.pool = append(s.pool, s.locks...)
+	// whatever the set-up left in Balance (container fees paid to the Alphabet)
+	for _, k := range x.StorageKeys(x.balance, []byte{'a'}) {
+		if len(k) == 21 {
+			dup := false
+			for _, q := range s.pool {
+				if string(q) == string(k[1:]) {
+					dup = true
+				}
+			}
+			if !dup {
+				s.pool = append(s.pool, k[1:])
+			}
+		}
+	}
+	return s
+}
+
+func (s *sysEnv) signer(i int) neotest.Signer {
+	switch {
+	case i < 0:
+		return s.x.E.Committee
+	case i >= 10:
+		return s.users[i-10]
+	}
+	return s.x.nodes[i]
+}
+
+func (s *sysEnv) signers(idx []int) []neotest.Signer {
+	var out []neotest.Signer
+	for _, i := range idx {
+		out = append(out, s.signer(i))
+	}
+	return out
+}
+
+func (s *sysEnv) exec(op sysOp) Result {
+	x := s.x
+	sg := s.signers(op.Signers)
+	switch op.Kind {
+	case "newEpoch":
+		return x.Invoke(sg, x.netmap, "newEpoch", op.Epoch)
+	case "addPeerIR":
+		return x.Invoke(sg, x.netmap, "addPeerIR", op.Info)
+	case "subscribe":
+		return x.Invoke(sg, x.netmap, "subscribeForNewEpoch", op.Hash)
+	case "mint":
+		return x.Invoke(sg, x.balance, "mint", op.To, op.Amount, op.Details)
+	case "lock":
+		return x.Invoke(sg, x.balance, "lock", op.Details, op.From, op.To, op.Amount, op.Until)
+	case "burn":
+		return x.Invoke(sg, x.balance, "burn", op.From, op.Amount, op.Details)
+	case "transfer":
+		return x.Invoke(sg, x.balance, "transfer", op.From, op.To, op.Amount, nil)
+	case "balTick":
+		return x.Invoke(sg, x.balance, "newEpoch", op.Epoch)
+	case "cntTick":
+		return x.Invoke(sg, x.container, "newEpoch", op.Epoch)
+	case "putSize":
+		return x.Invoke(sg, x.container, "putContainerSize", op.Epoch, x.cids[op.Cid], op.Size, x.pubs[op.Node])
+	}
+	panic(op.Kind)
+}
+
+func (s *sysEnv) coqCtx(f *nmFile, op sysOp, cur uint32) string {
+	var ks, hs []string
+	alpha := false
+	for _, i := range op.Signers {
+		if i < 0 {
+			alpha = true
+		} else if i < 10 {
+			ks = append(ks, f.pool.Ref(s.x.pubs[i]))
+		}
+		hs = append(hs, f.pool.Ref(s.signer(i).ScriptHash().BytesBE()))
+	}
+	return fmt.Sprintf("mkSC %s %s %s %d", ListLit(ks), ListLit(hs), BoolLit(alpha), cur)
+}
+
+func (s *sysEnv) coqOp(f *nmFile, op sysOp, live [][]byte) string {
+	p := f.pool
+	switch op.Kind {
+	case "newEpoch":
+		return "SNm (NewEpoch " + ZI(op.Epoch) + ")"
+	case "addPeerIR":
+		return "SNm (AddPeerIR " + p.Ref(op.Info) + ")"
+	case "subscribe":
+		return "SNm (Subscribe " + p.Ref(op.Hash) + ")"
+	case "mint":
+		return fmt.Sprintf("SBal (Balance.Mint %s %s %s)", p.Ref(op.To), ZI(op.Amount), p.Ref(op.Details))
+	case "lock":
+		return fmt.Sprintf("SBal (Balance.Lock %s %s %s %s %s)", p.Ref(op.Details), p.Ref(op.From), p.Ref(op.To), ZI(op.Amount), ZI(op.Until))
+	case "burn":
+		return fmt.Sprintf("SBal (Balance.Burn %s %s %s)", p.Ref(op.From), ZI(op.Amount), p.Ref(op.Details))
+	case "transfer":
+		return fmt.Sprintf("SBal (Balance.Transfer %s %s %s)", p.Ref(op.From), p.Ref(op.To), ZI(op.Amount))
+	case "balTick":
+		return "SBal (Balance.NewEpoch " + ZI(op.Epoch) + ")"
+	case "cntTick":
+		return "SEstTick " + ZI(op.Epoch)
+	case "putSize":
+		var ls []string
+		for _, c := range live {
+			ls = append(ls, p.Ref(c))
+		}
+		return fmt.Sprintf("SPutSize %s %s %s %s %s %s", ListLit(ls), ZI(op.Epoch), p.Ref(s.x.cids[op.Cid]), ZI(op.Size),
+			p.Ref(s.x.pubs[op.Node]), p.Ref(s.x.h20s[op.Node]))
+	}
+	panic(op.Kind)
+}
+
+type sysQuery struct {
+	kind string // N:<netmap query> | bal | supply | est
+	nq   nmQuery
+	a    []byte
+	e    int64
+}
+
+func (s *sysEnv) queries() []sysQuery {
+	qs := []sysQuery{{kind: "N", nq: nmQuery{kind: "QEpoch"}}, {kind: "N", nq: nmQuery{kind: "QBlock"}},
+		{kind: "N", nq: nmQuery{kind: "QNetmap"}}, {kind: "N", nq: nmQuery{kind: "QSnapshot", z: 1}},
+		{kind: "N", nq: nmQuery{kind: "QSubscribers"}}}
+	for _, a := range s.pool {
+		qs = append(qs, sysQuery{kind: "bal", a: a})
+	}
+	qs = append(qs, sysQuery{kind: "supply"})
+	lo := s.epoch - 7
+	if lo < 0 {
+		lo = 0
+	}
+	for e := lo; e <= s.epoch+1; e++ {
+		qs = append(qs, sysQuery{kind: "est", e: e})
+	}
+	return qs
+}
+
+func (s *sysEnv) answer(n *nmEnv, q sysQuery) gv {
+	x := s.x
+	switch q.kind {
+	case "N":
+		return n.answer(q.nq)
+	case "bal":
+		return gBig(x.ReadInt(x.balance, "balanceOf", q.a))
+	case "supply":
+		return gBig(x.ReadInt(x.balance, "totalSupply"))
+	case "est":
+		it, err := x.Read(x.container, "iterateAllContainerSizes", q.e)
+		if err != nil {
+			return gFault
+		}
+		return itemGV(it)
+	}
+	panic(q.kind)
+}
+
+func (q sysQuery) coq(p *Pool) string {
+	switch q.kind {
+	case "N":
+		c := q.nq.coq(p)
+		if strings.Contains(c, " ") {
+			c = "(" + c + ")"
+		}
+		return "QN " + c
+	case "bal":
+		return "QBalance " + p.Ref(q.a)
+	case "supply":
+		return "QSupply"
+	}
+	return "QEstAll " + ZI(q.e)
+}
+
+const sysHeader = "From Verif Require Import Base.Prelude Model.Netmap Model.EpochSystem.\nFrom Verif Require Model.Balance Model.Estimations.\nLocal Open Scope Z_scope.\n"
+const sysFooter = "Definition M := Eval vm_compute in failures_from 0 (map scheck_case cases).\nPrint M.\n"
+
+// sysEvents converts the application log: Netmap events and probe calls as in
+// the Netmap projection, Balance events as [6; <Balance.notif_val>].
+func (s *sysEnv) events(n *nmEnv, r Result) []gv {
+	var out []gv
+	for _, ev := range r.Events {
+		items := ev.Item.Value().([]stackitem.Item)
+		var args []gv
+		for _, it := range items {
+			if _, ok := it.(stackitem.Null); ok {
+				args = append(args, gBytes(nil))
+			} else {
+				args = append(args, itemGV(it))
+			}
+		}
+		switch {
+		case ev.ScriptHash == s.x.netmap:
+			tag := map[string]int64{"AddPeerSuccess": 0, "AddNode": 1, "UpdateStateSuccess": 2, "NewEpoch": 3, "NewEpochSubscription": 4}[ev.Name]
+			out = append(out, gListOf(append([]gv{gInt(tag)}, args...)))
+		case ev.ScriptHash == s.probe && ev.Name == "ProbeEpoch":
+			out = append(out, gListOf(append([]gv{gInt(5), gBytes(s.probe.BytesBE())}, args...)))
+		case ev.ScriptHash == s.x.balance:
+			tag, ok := map[string]int64{"Transfer": 0, "TransferX": 1, "Lock": 2}[ev.Name]
+			if ok {
+				out = append(out, gList(gInt(6), gListOf(append([]gv{gInt(tag)}, args...))))
+			}
+		}
+	}
+	return out
+}
+
+func runEpochSystem(t *testing.T, st *Stats) {
+	thorough := Tier() == "thorough"
+	nh, nops := 10, 34
+	if thorough {
+		nh, nops = 80, 50
+	}
+	f := newNmFile()
+	f.caseType = "scase"
+	nfiles := 0
+	writeSys := func() {
+		if len(f.cases) == 0 {
+			return
+		}
+		name := "cases_C06_sys.v"
+		if nfiles > 0 {
+			name = fmt.Sprintf("cases_C06_sys_%d.v", nfiles)
+		}
+		require.NoError(t, f.write(filepath.Join(OutDir(), name), sysHeader, sysFooter, 0, len(f.cases)))
+		nfiles++
+		f = newNmFile()
+		f.caseType = "scase"
+	}
+	evals, ticksOK, ticksRefused, released, cleaned, putsOK := 0, 0, 0, 0, 0, 0
+	hist := map[string]int{}
+	for hi := 0; hi < nh; hi++ {
+		r := Rng(int64(hi) + 9000)
+		s := newSysEnv(t)
+		x := s.x
+		n := &nmEnv{Env: x.Env, netmap: x.netmap, balance: x.balance, hasBalance: true, probes: []util.Uint160{s.probe}}
+		// model set-up: the subscriptions made during deployment (in index order)
+		// and the balances the set-up left behind
+		var pre []string
+		al0 := "mkSC [] [] true 0"
+		for _, k := range x.StorageKeys(x.netmap, []byte("e")) {
+			pre = append(pre, fmt.Sprintf("([], (%s, SNm (Subscribe %s)), [])", al0, f.pool.Ref(k[2:])))
+		}
+		for _, k := range x.StorageKeys(x.balance, []byte{'a'}) {
+			if len(k) != 21 {
+				continue
+			}
+			b := x.ReadInt(x.balance, "balanceOf", k[1:])
+			pre = append(pre, fmt.Sprintf("([], (%s, SBal (Balance.Mint %s %s [])), [])", al0, f.pool.Ref(k[1:]), ZLit(b)))
+		}
+		var steps []string
+		var all []sysOp
+		var prev []gv
+		type lockRec struct {
+			parent []byte
+			until  int64
+		}
+		locks := map[string]*lockRec{}
+		violate := func(what string) {
+			var rd []string
+			for _, o := range all {
+				rd = append(rd, o.String())
+			}
+			st.AddViolation("system: "+what, map[string]any{"ops": all, "readable": rd})
+		}
+		u0, u1 := s.users[0].ScriptHash().BytesBE(), s.users[1].ScriptHash().BytesBE()
+		next := func(i int) sysOp {
+			al := []int{-1}
+			if i >= 4 && r.Intn(14) == 0 {
+				al = []int{10} // a stranger where the Alphabet is required
+			}
+			switch i {
+			case 0:
+				return sysOp{Kind: "mint", To: u0, Amount: 5000, Details: []byte{1}, Signers: []int{-1}}
+			case 1:
+				return sysOp{Kind: "addPeerIR", Node: 0, Info: x.infos[0], Signers: []int{-1}}
+			case 2:
+				return sysOp{Kind: "addPeerIR", Node: 1, Info: x.infos[1], Signers: []int{-1}}
+			case 3:
+				return sysOp{Kind: "mint", To: u1, Amount: 3000, Details: []byte{2}, Signers: []int{-1}}
+			}
+			switch w := r.Intn(100); {
+			case w < 30:
+				e := s.epoch + 1
+				switch r.Intn(10) {
+				case 0:
+					e = s.epoch
+				case 1:
+					e = s.epoch + 2
+				}
+				return sysOp{Kind: "newEpoch", Epoch: e, Signers: al}
+			case w < 42:
+				from := [][]byte{u0, u1}[r.Intn(2)]
+				return sysOp{Kind: "lock", From: from, To: s.locks[r.Intn(2)], Amount: int64(100 * (1 + r.Intn(9))), Until: s.epoch + int64(r.Intn(4)),
+					Details: []byte{byte(i)}, Signers: al}
+			case w < 48:
+				return sysOp{Kind: "burn", From: s.locks[r.Intn(2)], Amount: int64(50 * (1 + r.Intn(4))), Details: []byte{byte(i)}, Signers: al}
+			case w < 54:
+				return sysOp{Kind: "transfer", From: u0, To: u1, Amount: int64(10 * r.Intn(30)), Signers: []int{10}}
+			case w < 58:
+				return sysOp{Kind: "mint", To: [][]byte{u0, u1}[r.Intn(2)], Amount: int64(1000), Details: []byte{byte(i)}, Signers: al}
+			case w < 80:
+				node := r.Intn(3)
+				sg := []int{node}
+				if r.Intn(8) == 0 {
+					sg = []int{(node + 1) % 3}
+				}
+				return sysOp{Kind: "putSize", Epoch: s.epoch - int64(r.Intn(4)) + 1, Cid: r.Intn(2), Size: int64(1 + r.Intn(1000)), Node: node, Signers: sg}
+			case w < 84:
+				return sysOp{Kind: "addPeerIR", Node: 2, Info: x.infos[2], Signers: al}
+			case w < 88:
+				return sysOp{Kind: "subscribe", Hash: s.probe.BytesBE(), Signers: al}
+			case w < 92:
+				if s.rej != nil {
+					return sysOp{Kind: "probeClearFault"}
+				}
+				return sysOp{Kind: "probeSetFault", Epoch: s.epoch + 1}
+			case w < 96:
+				return sysOp{Kind: "balTick", Epoch: s.epoch + int64(r.Intn(2)), Signers: al}
+			default:
+				return sysOp{Kind: "cntTick", Epoch: s.epoch + int64(r.Intn(3)), Signers: al}
+			}
+		}
+		for i := 0; i < nops; i++ {
+			op := next(i)
+			all = append(all, op)
+			switch op.Kind {
+			case "probeSetFault":
+				res := x.Invoke(nil, s.probe, "setFault", op.Epoch)
+				require.True(t, res.Halt, res.Fault)
+				e := op.Epoch
+				s.rej = &e
+				continue
+			case "probeClearFault":
+				res := x.Invoke(nil, s.probe, "clearFault")
+				require.True(t, res.Halt, res.Fault)
+				s.rej = nil
+				continue
+			}
+			rej := "[]"
+			if s.rej != nil {
+				rej = fmt.Sprintf("[(%s, %s)]", f.pool.Ref(s.probe.BytesBE()), ZI(*s.rej))
+			}
+			var live [][]byte
+			if op.Kind == "putSize" {
+				live = x.live()
+			}
+			res := s.exec(op)
+			cur := x.E.TopBlock(t).Index - 1
+			s.epoch = x.ReadInt(x.netmap, "epoch").Int64()
+			ret := gNull
+			if !res.Halt {
+				ret = gFault
+			} else if op.Kind == "transfer" {
+				b, _ := res.Stack[0].TryBool()
+				ret = gBool(b)
+			}
+			qs := s.queries()
+			var qc, as []string
+			var ans []gv
+			for _, q := range qs {
+				a := s.answer(n, q)
+				ans = append(ans, a)
+				qc = append(qc, q.coq(f.pool))
+				as = append(as, f.val(a))
+			}
+			var evs []string
+			evg := s.events(n, res)
+			for _, ev := range evg {
+				evs = append(evs, f.val(ev))
+			}
+			steps = append(steps, fmt.Sprintf("((%s, (%s, %s), %s), %s)", rej, s.coqCtx(f, op, cur), s.coqOp(f, op, live),
+				ListLit(paren(qc)), VList([]string{f.val(ret), VList(evs), VList(as)})))
+			evals++
+			oc := "halt"
+			if !res.Halt {
+				oc = "fault"
+			}
+			hist["sys."+op.Kind+"/"+oc]++
+			// --- monitor (search engine): atomicity, release at expiry, clean-up
+			balOf := func(a []byte, from []gv) *big.Int {
+				for j, q := range qs {
+					if q.kind == "bal" && string(q.a) == string(a) && j < len(from) {
+						return from[j].i
+					}
+				}
+				return big.NewInt(0)
+			}
+			if !res.Halt && prev != nil && len(prev) == len(ans) {
+				same := true
+				for j := range ans {
+					if qs[j].kind == "est" {
+						continue // the window of epochs is the same only if the epoch is
+					}
+					if !ans[j].eq(prev[j]) {
+						same = false
+					}
+				}
+				if !same {
+					violate("a faulted transaction changed an observable: " + op.String())
+				}
+				if len(evg) != 0 {
+					violate("a faulted transaction left notifications: " + op.String())
+				}
+			}
+			if res.Halt {
+				switch op.Kind {
+				case "lock":
+					locks[string(op.To)] = &lockRec{parent: op.From, until: op.Until}
+				case "putSize":
+					putsOK++
+				case "newEpoch":
+					ticksOK++
+					for la, l := range locks {
+						if l.until != 0 && l.until <= op.Epoch && prev != nil {
+							was := balOf([]byte(la), prev)
+							if balOf([]byte(la), ans).Sign() != 0 {
+								violate(fmt.Sprintf("tick %d through netmap did not release lock %s (until %d)", op.Epoch, Hex([]byte(la)), l.until))
+							}
+							if was.Sign() > 0 {
+								released++
+							}
+							delete(locks, la)
+						}
+					}
+					for j, q := range qs {
+						if q.e == 0 {
+							continue // epoch 0 encodes to the empty string: the scan lists every epoch (recorded C20 finding); compared with the model only
+						}
+						if q.kind == "est" && op.Epoch-q.e > s.d2 && len(ans[j].l) != 0 {
+							violate(fmt.Sprintf("tick %d through netmap left estimations of epoch %d", op.Epoch, q.e))
+						}
+						if q.kind == "est" && op.Epoch-q.e > s.d2 {
+							cleaned++
+						}
+					}
+				}
+			} else if op.Kind == "newEpoch" {
+				ticksRefused++
+			}
+			prev = ans
+		}
+		f.cases = append(f.cases, fmt.Sprintf("((%s, %s), (%s, %s, %s), %s, %s, %s)", ZI(s.d1), ZI(s.d2),
+			f.pool.Ref(x.netmap.BytesBE()), f.pool.Ref(x.balance.BytesBE()), f.pool.Ref(x.container.BytesBE()),
+			ListLit([]string{f.pool.Ref(s.probe.BytesBE())}), ListLit(pre), ListLit(steps)))
+		if len(f.cases) >= 20 {
+			writeSys() // several files, evaluated in parallel by the driver
+		}
+		if hi == 0 {
+			var ss []string
+			for i, o := range all {
+				if i >= 14 {
+					ss = append(ss, "...")
+					break
+				}
+				ss = append(ss, o.String())
+			}
+			st.Samples = append(st.Samples, ss)
+		}
+	}
+	writeSys()
+	st.Evaluations += evals
+	st.Histories += nh
+	for k, v := range hist {
+		st.OutcomeHistogram[k] = v
+	}
+	st.Extra["system"] = map[string]any{"histories": nh, "evaluations": evals, "ticks_through_netmap_ok": ticksOK, "ticks_refused": ticksRefused,
+		"locks_released_by_netmap_ticks": released, "estimation_epochs_cleaned_by_netmap_ticks": cleaned, "estimations_accepted": putsOK,
+		"contracts": "nns, netmap, balance (subscriber 0), container (subscriber 1), probe"}
+}
